@@ -3,13 +3,13 @@ import json
 import random as _random
 
 from core.runner import Prop
-from core.rng import patched
+from core.rng import SemanticRandom, installed
 
 
 class C05(Prop):
     pid = "C05"
     rule = ("distributions with 1-6 distinct tuple keys over 1-4 topologies, unnormalised integer weights, motif sizes 1-5 (size 1 forced "
-            "in 25% of cases), N 1-60; the weighted draw (random.choices) and the vertex picks (random.randrange) are scripted; "
+            "in 25% of cases), N 1-60; the weighted key draws and the uniform vertex picks are scripted as events, through whichever function of `random` they are drawn; "
             "non-trivial = at least one column needed patching; distinct = distinct case")
     assumptions = ["random.choices(population, weights, k) draws i.i.d. in proportion to the weights and random.randrange is uniform "
                    "(stdlib; only the arguments handed to them are checked)"]
@@ -43,31 +43,45 @@ class C05(Prop):
         from gcmpy.names.joint_degree_names import JointDegreeNames as JN
         jdd = {tuple(k): w for k, w in case["jdd"]}
         obj = JointDegreeManual({JN.JDD: jdd, JN.MOTIF_SIZES: list(case["sizes"])})
-        log = {"choices": [], "randrange": []}
         picks = list(case["picks"])
+        chosen_keys = [tuple(case["jdd"][i][0]) for i in case["chosen"]]
 
-        def fake_choices(population, weights=None, *, cum_weights=None, k=1):
-            log["choices"].append({"population": [list(p) for p in population],
-                                   "weights": None if weights is None else list(weights),
-                                   "cum_weights": cum_weights, "k": k})
-            return [population[i] for i in case["chosen"]][:k] if k <= len(case["chosen"]) else \
-                [population[case["chosen"][t % len(case["chosen"])]] for t in range(k)]
+        class R(SemanticRandom):
+            """t-th weighted draw -> the case's t-th chosen KEY (wherever it sits in the population handed over);
+            uniform picks among the N vertices -> the case's picks, in order"""
 
-        def fake_randrange(*args):
-            log["randrange"].append(list(args))
-            if not picks:
-                return 0
-            return picks.pop(0)
+            def __init__(self):
+                super().__init__()
+                self.weighted, self.uniform, self.t = [], [], 0
+
+            def on_weighted(self, weights, ctx):
+                pop = [tuple(p) if isinstance(p, (tuple, list)) else p for p in ctx["population"]]
+                if ctx["t"] == 0:
+                    self.weighted.append({"population": [list(p) if isinstance(p, tuple) else repr(p) for p in pop],
+                                          "weights": list(weights), "k": ctx["k"]})
+                want = chosen_keys[self.t % len(chosen_keys)]
+                self.t += 1
+                if want in pop:
+                    return pop.index(want)
+                return super().on_weighted(weights, ctx)
+
+            def on_uniform(self, n, ctx):
+                self.uniform.append(n)
+                if not picks:
+                    return 0
+                v = picks.pop(0)
+                return v if 0 <= v < n else super().on_uniform(n, ctx)
+        sem = R()
         if case.get("warmup"):
             # an earlier sampling call on the same object must not influence this one
             st = random.getstate()
             obj.sample_jds_from_jdd(case["warmup"])
             random.setstate(st)
-        with patched(random, "choices", fake_choices), patched(random, "randrange", fake_randrange):
+        with installed(sem):
             out = obj.sample_jds_from_jdd(case["N"])
         obs = {"out": [list(x) for x in out], "types": sorted({type(x).__name__ for x in out}),
                "elem_types": sorted({type(v).__name__ for x in out for v in x}),
-               "choices_calls": log["choices"], "randrange_calls": log["randrange"],
+               "weighted_calls": sem.weighted, "uniform_picks": sem.uniform, "rng": sem.summary(),
                "jdd_untouched": obj.jdd == {tuple(k): w for k, w in case["jdd"]}}
         # usable wherever the library accepts a joint degree sequence
         usable = []
@@ -96,14 +110,16 @@ class C05(Prop):
         return {"op": "c05", "sizes": case["sizes"], "jds": drawn, "picks": case["picks"]}
 
     def model(self, case, reply, obs):
-        return {"out": reply["out"], "n_randrange": reply["picks_used"],
-                "choices": [{"population": [k for k, _ in case["jdd"]], "weights": [w for _, w in case["jdd"]], "k": case["N"]}]}
+        return {"out": reply["out"], "n_uniform_picks": reply["picks_used"], "n_weighted_draws": case["N"],
+                "weighted_pairs": [sorted([k, w] for k, w in case["jdd"])], "rng_unexpected": 0}
 
     def project(self, case, obs):
         if "exc" in obs:
             return {"exc": obs["exc"]}
-        return {"out": obs["out"], "n_randrange": len(obs["randrange_calls"]),
-                "choices": [{"population": c["population"], "weights": c["weights"], "k": c["k"]} for c in obs["choices_calls"]]}
+        return {"out": obs["out"], "n_uniform_picks": len(obs["uniform_picks"]),
+                "n_weighted_draws": sum(c["k"] for c in obs["weighted_calls"]),
+                "weighted_pairs": [sorted([k, w] for k, w in zip(c["population"], c["weights"])) for c in obs["weighted_calls"]],
+                "rng_unexpected": obs["rng"]["n_unexpected"]}
 
     def oracle(self, case, obs):
         if "exc" in obs:
@@ -120,28 +136,31 @@ class C05(Prop):
         if any(v < 0 for r in out for v in r):
             f.append("negative-entry")
         T = len(sizes)
+        scripted = not obs["rng"]["n_unexpected"]      # the drawn keys are known only if every draw went through the script
         for i in range(T):
             s_in = sum(r[i] for r in drawn)
             s_out = sum(r[i] for r in out)
             if s_out % sizes[i]:
                 f.append(f"not-divisible: topology {i} total {s_out} not divisible by {sizes[i]}")
             want = (sizes[i] - s_in % sizes[i]) % sizes[i]
-            if s_out - s_in != want:
+            if scripted and s_out - s_in != want:
                 f.append(f"not-minimal: topology {i} got {s_out - s_in} added stubs, the fewest that achieve divisibility is {want}")
-        if any(o[i] < d[i] for o, d in zip(out, drawn) for i in range(T)) or any(len(o) != len(d) for o, d in zip(out, drawn)):
+        if scripted and any(o[i] < d[i] for o, d in zip(out, drawn) for i in range(T)) or any(len(o) != len(d) for o, d in zip(out, drawn)):
             f.append("removal: an entry is smaller than the drawn key (or changed shape)")
-        for c in obs["choices_calls"]:
-            keys = [k for k, _ in case["jdd"]]
-            ws = [w for _, w in case["jdd"]]
-            if c["weights"] is not None and c["cum_weights"] is None and len(c["population"]) == len(c["weights"]):
-                pairs = sorted(zip(map(tuple, c["population"]), c["weights"]))
-                if pairs != sorted(zip(map(tuple, keys), ws)):
+        keys = [k for k, _ in case["jdd"]]
+        ws = [w for _, w in case["jdd"]]
+        for c in obs["weighted_calls"]:
+            if len(c["population"]) == len(c["weights"]):
+                pairs = sorted((tuple(k) if isinstance(k, list) else k, w) for k, w in zip(c["population"], c["weights"]) if w != 0)
+                if pairs != sorted((tuple(k), w) for k, w in zip(keys, ws) if w != 0):
                     f.append("weights-misaligned: keys are not drawn in proportion to their weights")
-            if c["k"] != N:
-                f.append(f"draw-count: {c['k']} keys drawn for N={N}")
-        for a in obs["randrange_calls"]:
-            if a not in ([0, N], [N]):
-                f.append(f"vertex-pick-range: randrange{tuple(a)} is not a uniform pick among the {N} vertices")
+        if not obs["rng"]["n_unexpected"]:
+            nd = sum(c["k"] for c in obs["weighted_calls"])
+            if nd != N:
+                f.append(f"draw-count: {nd} keys drawn for N={N}")
+        for n in obs["uniform_picks"]:
+            if n != N:
+                f.append(f"vertex-pick-range: a uniform pick among {n} alternatives is not a uniform pick among the {N} vertices")
                 break
         if obs["unusable"]:
             f.append("unusable: " + obs["unusable"][0][:120])
@@ -150,14 +169,14 @@ class C05(Prop):
         return f
 
     def nontrivial(self, case, obs):
-        return "exc" not in obs and len(obs["randrange_calls"]) > 0
+        return "exc" not in obs and len(obs["uniform_picks"]) > 0
 
     def stats(self, case, obs, hist):
         if 1 in case["sizes"]:
             hist["has_size_1"] = hist.get("has_size_1", 0) + 1
         if "exc" not in obs:
-            hist["patched_stubs"] = hist.get("patched_stubs", 0) + len(obs["randrange_calls"])
-            if not obs["randrange_calls"]:
+            hist["patched_stubs"] = hist.get("patched_stubs", 0) + len(obs["uniform_picks"])
+            if not obs["uniform_picks"]:
                 hist["already_divisible"] = hist.get("already_divisible", 0) + 1
         hist["N_sum"] = hist.get("N_sum", 0) + case["N"]
 
